@@ -3,7 +3,11 @@
 // R: an injected failure that the query necessarily consumes, yet exit status 0.
 // O: exit status != 0 and a non-empty error on stderr. Nothing else is judged.
 // W: the complete product  fault x operator-above x output mode x row position (x optimizer
-// on/off in the thorough tier). Every faulted run has a *control* twin: the same query text over
+// on/off in the thorough tier). Two kinds of fault placement: (a) the fault is BELOW the operator
+// (a failing input row / expression in the operator's source, including joins whose other side is
+// empty), (b) the fault is ABOVE the operator: a failing expression in an enclosing query that
+// consumes the operator's output (consumer-* faults), so the operator must hand its consumer's
+// error up. Every faulted run has a *control* twin: the same query text over
 // the same table without the fault (or with the panic guard pointing at a row that does not
 // exist); the control must exit 0 with output, which proves that a non-zero exit of the faulted
 // run is caused by the fault and not by a query the engine rejects anyway.
@@ -39,6 +43,11 @@ type src struct {
 	hasTS     bool   // has a Time column "ts"
 	ok        string // clean 6-row table with columns id, g, s of matching types (the other join side)
 	pred      func(alias string) string
+	// consumer faults: the failing expression is evaluated over the OUTPUT of an operator. fire tells
+	// whether the guard value exists (faulted run) or not (control); lit renders a value of the id type.
+	consumer bool
+	fire     bool
+	lit      func(v int) string
 	// list renders a list-valued select expression; -o csv cannot print a list column (it panics,
 	// which is C07's finding), so in csv mode the list is reduced to its length.
 	list func(expr string) string
@@ -248,6 +257,42 @@ func faults() []fault {
 			func(k int) string { return fmt.Sprintf(`%d,%d,s"x,2020-01-01T00:00:00Z`, k, k%3) }),
 		csvFileFault("csv-open-quote", "CSV row k opens a quoted field that is never closed", []string{`quoted-field`, "wrong number of fields"},
 			func(k int) string { return fmt.Sprintf(`%d,%d,"sx,2020-01-01T00:00:00Z`, k, k%3) }),
+		{
+			name: "consumer-panic-json", class: "expression-over-operator-output",
+			what:    "panic('x') in an expression that consumes the OUTPUT of an operator (select list / WHERE / GROUP BY key / aggregate argument / join ON of an enclosing query), reached for one output row through short-circuit; the inputs (JSON tables) are fault-free",
+			markers: []string{"panic: 'x'"},
+			files: func(k int) map[string][]byte {
+				return map[string][]byte{"t.json": join(jsonRows()), "ok.json": okJSON()}
+			},
+			bad: func(k int) src {
+				x := jsonSrc("t.json", harmless("id"))
+				x.consumer, x.fire, x.lit = true, true, flt
+				return x
+			},
+			good: func(k int) src {
+				x := jsonSrc("t.json", harmless("id"))
+				x.consumer, x.fire, x.lit = true, false, flt
+				return x
+			},
+		},
+		{
+			name: "consumer-panic-csv", class: "expression-over-operator-output",
+			what:    "the same over CSV tables (Int columns)",
+			markers: []string{"panic: 'x'"},
+			files: func(k int) map[string][]byte {
+				return map[string][]byte{"t.csv": join(csvRows()), "ok.csv": okCSV()}
+			},
+			bad: func(k int) src {
+				x := csvSrc("t.csv", harmless("id"))
+				x.consumer, x.fire, x.lit = true, true, itg
+				return x
+			},
+			good: func(k int) src {
+				x := csvSrc("t.csv", harmless("id"))
+				x.consumer, x.fire, x.lit = true, false, itg
+				return x
+			},
+		},
 		dirFault("json-unreadable", "json", func(t string) src { return jsonSrc(t, harmless("id")) }),
 		dirFault("csv-unreadable", "csv", func(t string) src { return csvSrc(t, harmless("id")) }),
 		dirFault("lines-unreadable", "lines", linesSrc),
@@ -265,6 +310,37 @@ type op struct {
 	// (a function of the query shape and the output mode only); "" = none known.
 	swallower func(mode string) string
 	sql       func(x src) string
+	// consumer ops place a failing expression ABOVE the operator (over its output); they pair with
+	// the consumer-* faults only.
+	consumer bool
+	// emptyOK: the fault-free control legitimately prints nothing (inner join with an empty side)
+	emptyOK bool
+}
+
+// cpred: a predicate over an operator's output column that evaluates panic('x') only for the row
+// whose column equals val (never, in the control). intCol: the column is an Int whatever the table
+// type (count(*), len()).
+func cpred(x src, col string, val int, intCol bool) string {
+	if !x.fire {
+		val = -1
+	}
+	lit := fmt.Sprintf("%d", val)
+	if !intCol {
+		lit = x.lit(val)
+	}
+	return fmt.Sprintf("(%s != %s OR panic('x') IS NULL)", col, lit)
+}
+
+// emptySide: the clean other table filtered down to nothing.
+func emptySide(x src, alias string) string {
+	return fmt.Sprintf("(SELECT * FROM %s o WHERE o.id < %s) %s", x.ok, x.lit0(), alias)
+}
+
+func (x src) lit0() string {
+	if x.ok == "ok.json" {
+		return "0.0"
+	}
+	return "0"
 }
 
 func never(string) string { return "" }
@@ -410,7 +486,126 @@ func ops() []op {
 				"SELECT window_end, count(*) AS c FROM z GROUP BY window_end TRIGGER ON WATERMARK", x.table, x.pred("f"))
 		}},
 	)
+	// joins whose other side is empty (filtered down to nothing): the join then only drains the
+	// faulty side, a path of its own in StreamJoin/OuterJoin
+	for _, kind := range []struct{ name, kw string }{
+		{"inner-join", "JOIN"}, {"left-join", "LEFT JOIN"}, {"right-join", "RIGHT JOIN"}, {"outer-join", "OUTER JOIN"}, {"lookup-join", "LOOKUP JOIN"},
+	} {
+		kw := kind.kw
+		if kw != "LOOKUP JOIN" { // a lookup join with an empty source side never runs its joined side: the fault would not be consumed
+			list = append(list, op{name: kind.name + "/other-side-empty/fault-right", swallower: never, emptyOK: true, sql: func(x src) string {
+				return fmt.Sprintf("SELECT a.id AS aid, b.%s AS bid FROM %s %s %s ON a.g = b.%s", x.id, emptySide(x, "a"), kw, sub(x, "f", "b"), x.g)
+			}})
+		}
+		list = append(list, op{name: kind.name + "/other-side-empty/fault-left", swallower: never, emptyOK: true, sql: func(x src) string {
+			return fmt.Sprintf("SELECT a.id AS aid, b.%s AS bid FROM %s %s %s ON b.%s = a.g", x.id, sub(x, "f", "b"), kw, emptySide(x, "a"), x.g)
+		}})
+	}
+	list = append(list,
+		op{name: "inner-join-direct/other-side-empty/fault-right", swallower: never, emptyOK: true, sql: func(x src) string {
+			return fmt.Sprintf("SELECT a.id AS aid, b.%s AS bid FROM %s JOIN %s b ON a.g = b.%s WHERE %s", x.id, emptySide(x, "a"), x.table, x.g, x.pred("b"))
+		}},
+		op{name: "inner-join-direct/other-side-empty/fault-left", swallower: never, emptyOK: true, sql: func(x src) string {
+			return fmt.Sprintf("SELECT a.id AS aid, b.%s AS bid FROM %s b JOIN %s ON a.g = b.%s WHERE %s", x.id, x.table, emptySide(x, "a"), x.g, x.pred("b"))
+		}},
+	)
+	list = append(list, consumerOps()...)
 	return list
+}
+
+// consumerOps: a failing expression evaluated over the OUTPUT of operator X, in the select list or
+// the WHERE clause of an enclosing query (a Map / Filter that consumes X). X's own Run must hand the
+// consumer's error up. The inner tables are fault-free.
+func consumerOps() []op {
+	type inner struct {
+		name   string
+		needs  string
+		sql    func(x src) string // the inner query; its output has the column k
+		val    int                // a value k takes in exactly the rows where the consumer must fail
+		intCol bool
+		col    string // how the consumer addresses the column (default "x.k")
+		coal   bool   // k may transiently be NULL (outer joins): guard with COALESCE
+	}
+	join := func(kw string) func(x src) string {
+		return func(x src) string {
+			return fmt.Sprintf("SELECT b.id AS k FROM %s a %s %s b ON a.g = b.g", x.ok, kw, x.table)
+		}
+	}
+	inners := []inner{
+		{name: "group-by", sql: func(x src) string {
+			return fmt.Sprintf("SELECT b.g AS k, count(*) AS c FROM %s b GROUP BY b.g", x.table)
+		}, val: 1},
+		{name: "group-by-aggregate-column", sql: func(x src) string {
+			return fmt.Sprintf("SELECT b.g AS g, count(*) AS k FROM %s b GROUP BY b.g", x.table)
+		}, val: nRows / 3, intCol: true},
+		{name: "global-aggregate", sql: func(x src) string { return fmt.Sprintf("SELECT count(*) AS k FROM %s b", x.table) }, val: nRows, intCol: true},
+		{name: "group-by-trigger-counting", sql: func(x src) string {
+			return fmt.Sprintf("SELECT b.g AS k, count(*) AS c FROM %s b GROUP BY b.g TRIGGER COUNTING 7", x.table)
+		}, val: 1},
+		{name: "group-by-trigger-end-of-stream", sql: func(x src) string {
+			return fmt.Sprintf("SELECT b.g AS k, count(*) AS c FROM %s b GROUP BY b.g TRIGGER ON END OF STREAM", x.table)
+		}, val: 1},
+		{name: "distinct", sql: func(x src) string { return fmt.Sprintf("SELECT DISTINCT b.g AS k FROM %s b", x.table) }, val: 1},
+		{name: "order-by", sql: func(x src) string { return fmt.Sprintf("SELECT b.id AS k FROM %s b ORDER BY k", x.table) }, val: 110},
+		{name: "order-by-limit-big", sql: func(x src) string {
+			return fmt.Sprintf("SELECT b.id AS k FROM %s b ORDER BY k DESC LIMIT %s", x.table, bigLimit)
+		}, val: 110},
+		{name: "limit-big", sql: func(x src) string { return fmt.Sprintf("SELECT b.id AS k FROM %s b LIMIT %s", x.table, bigLimit) }, val: 110},
+		{name: "where", sql: func(x src) string { return fmt.Sprintf("SELECT b.id AS k FROM %s b WHERE b.id IS NOT NULL", x.table) }, val: 110},
+		{name: "inner-join", sql: join("JOIN"), val: 110},
+		{name: "lookup-join", sql: join("LOOKUP JOIN"), val: 110},
+		{name: "left-join", sql: join("LEFT JOIN"), val: 110, coal: true},
+		{name: "right-join", sql: join("RIGHT JOIN"), val: 110, coal: true},
+		{name: "outer-join", sql: join("OUTER JOIN"), val: 110, coal: true},
+		{name: "cross-join", sql: func(x src) string { return fmt.Sprintf("SELECT b.id AS k FROM %s a, %s b", x.ok, x.table) }, val: 110},
+		{name: "tvf-max-diff-watermark", needs: "ts", sql: func(x src) string {
+			return fmt.Sprintf("SELECT m.id AS k FROM max_diff_watermark(source=>TABLE(%s), max_diff=>INTERVAL 1 SECONDS, time_field=>DESCRIPTOR(ts)) m", x.table)
+		}, val: 110},
+		{name: "tvf-tumble", needs: "ts", sql: func(x src) string {
+			return fmt.Sprintf("SELECT w.id AS k FROM tumble(source=>TABLE(%s), window_length=>INTERVAL 10 SECONDS, time_field=>DESCRIPTOR(ts)) w", x.table)
+		}, val: 110},
+	}
+	var out []op
+	for _, in := range inners {
+		in := in
+		col := func(x src) string {
+			c := "x.k"
+			if in.coal {
+				c = "COALESCE(x.k, " + x.lit(-7) + ")"
+			}
+			return c
+		}
+		out = append(out,
+			op{name: "consumer-select-list/over-" + in.name, needs: in.needs, consumer: true, swallower: never, sql: func(x src) string {
+				return fmt.Sprintf("SELECT x.k AS k, %s AS p FROM (%s) x", cpred(x, col(x), in.val, in.intCol), in.sql(x))
+			}},
+			op{name: "consumer-where/over-" + in.name, needs: in.needs, consumer: true, swallower: never, sql: func(x src) string {
+				return fmt.Sprintf("SELECT x.k AS k FROM (%s) x WHERE %s", in.sql(x), cpred(x, col(x), in.val, in.intCol))
+			}},
+		)
+	}
+	// consumers of other kinds
+	out = append(out,
+		op{name: "consumer-where/over-cte", consumer: true, swallower: never, sql: func(x src) string {
+			return fmt.Sprintf("WITH x AS (SELECT b.id AS k FROM %s b) SELECT k FROM x WHERE %s", x.table, cpred(x, "k", 110, false))
+		}},
+		op{name: "consumer-where/over-scalar-subquery", consumer: true, swallower: never, sql: func(x src) string {
+			return fmt.Sprintf("SELECT a.id AS id FROM %s a WHERE %s", x.ok, cpred(x, fmt.Sprintf("len((SELECT b.id FROM %s b))", x.table), nRows, true))
+		}},
+		op{name: "consumer-group-by-key/over-group-by", consumer: true, swallower: never, sql: func(x src) string {
+			return fmt.Sprintf("SELECT %s AS p, count(*) AS n FROM (SELECT b.g AS k, count(*) AS c FROM %s b GROUP BY b.g) x GROUP BY %s", cpred(x, "x.k", 1, false), x.table, cpred(x, "x.k", 1, false))
+		}},
+		op{name: "consumer-aggregate-argument/over-distinct", consumer: true, swallower: never, sql: func(x src) string {
+			return fmt.Sprintf("SELECT count(%s) AS n FROM (SELECT DISTINCT b.g AS k FROM %s b) x", cpred(x, "x.k", 1, false), x.table)
+		}},
+		op{name: "consumer-join-on/over-group-by", consumer: true, swallower: never, sql: func(x src) string {
+			return fmt.Sprintf("SELECT a.id AS id, x.k AS k FROM %s a JOIN (SELECT b.g AS k, count(*) AS c FROM %s b GROUP BY b.g) x ON a.g = x.k AND %s", x.ok, x.table, cpred(x, "x.k", 1, false))
+		}},
+		op{name: "consumer-distinct-select-list/over-group-by", consumer: true, swallower: never, sql: func(x src) string {
+			return fmt.Sprintf("SELECT DISTINCT %s AS p FROM (SELECT b.g AS k, count(*) AS c FROM %s b GROUP BY b.g) x", cpred(x, "x.k", 1, false), x.table)
+		}},
+	)
+	return out
 }
 
 // ---------------------------------------------------------------------------------------------
@@ -484,6 +679,19 @@ func Run(c *core.Ctx) core.FinishOpts {
 		}
 		fs = keep
 	}
+	if c.Tier != "thorough" && os.Getenv("VERIF_C06_FAULTS") == "" {
+		// quick: one representative per failing code path (the thorough tier has the whole list):
+		// json-not-object fails in the same worker branch as json-malformed, csv-long-row/csv-open-quote
+		// in the same csv.Reader error return as csv-short-row/csv-bare-quote, csv-unreadable like json-unreadable.
+		drop := map[string]bool{"json-not-object": true, "csv-long-row": true, "csv-open-quote": true, "csv-unreadable": true}
+		var keep []fault
+		for _, f := range fs {
+			if !drop[f.name] {
+				keep = append(keep, f)
+			}
+		}
+		fs = keep
+	}
 	os_ := ops()
 
 	allPos := []pos{{"beyond-preview(>100)", 110}, {"first", 0}, {"middle", 60}, {"beyond-batch(>64)", 70}, {"last", nRows - 1}}
@@ -529,6 +737,9 @@ func Run(c *core.Ctx) core.FinishOpts {
 		for j := range os_ {
 			o := &os_[j]
 			if o.needs == "ts" && !f.bad(0).hasTS {
+				continue
+			}
+			if o.consumer != f.bad(0).consumer {
 				continue
 			}
 			for _, mode := range modes {
@@ -631,7 +842,7 @@ func Run(c *core.Ctx) core.FinishOpts {
 		switch {
 		case a.res.TimedOut:
 			c.Inconclusive("watchdog")
-		case a.res.Exit != 0 || len(bytes.TrimSpace(a.res.Stdout)) == 0:
+		case a.res.Exit != 0 || (len(bytes.TrimSpace(a.res.Stdout)) == 0 && !a.o.emptyOK):
 			// the query shape is not runnable even without the fault: the faulted twin proves nothing
 			c.Inconclusive("control-not-runnable")
 			c.Count("control_failed/"+a.o.name, 1)
@@ -764,9 +975,10 @@ func Run(c *core.Ctx) core.FinishOpts {
 
 	return core.FinishOpts{
 		Level: "fault_enumeration",
-		Rule: "complete product fault x operator-above x output mode x row position (x optimizer setting in the thorough tier); " +
+		Rule: "complete product fault x operator x output mode x row position (x optimizer setting in the thorough tier); the fault sits below the operator " +
+			"(input row / source expression; joins also with an empty other side) or above it (consumer-* faults: failing expression over the operator's output); " +
 			"a case counts (non-trivial) only if its control twin - same query text, fault-free input - exits 0 with output; distinct by case id",
-		Floor:       c.Pick(1200, 12000),
+		Floor:       c.Pick(1500, 15000),
 		Assumptions: []string{"a zero exit of the control twin shows the query shape is accepted, so the faulted run's non-zero exit is caused by the fault", "exit status and stderr as seen by os/exec"},
 		Exhaustive:  true,
 	}
